@@ -166,14 +166,33 @@ class SiteSystem:
             labels=list(self.labels),
         )
 
-    def trajectory(self, species_mode='element', rng=None):
-        sp = species_objects(self.species_names, rng=rng, mode=species_mode)
+    def atom_order(self, interleave):
+        """Order in which the atoms are listed: as generated (diffusing species first), or - for every second
+        system, decided by the data - with the framework atoms in front of / between the diffusing atoms (the
+        relative order of the diffusing atoms is kept, so per-atom results keep their meaning)."""
+        import zlib
+
+        n, nf = len(self.species_names), self.n_floating
+        if not interleave or n == nf or (zlib.crc32(np.ascontiguousarray(self.coords).tobytes()) >> 5) % 2 == 0:
+            return list(range(n))
+        r = np.random.default_rng(zlib.crc32(np.ascontiguousarray(self.coords).tobytes()))
+        slots = np.sort(r.choice(n, size=nf, replace=False)) if r.integers(2) else np.arange(n - nf, n)
+        order = [None] * n
+        fl, fw = iter(range(nf)), iter(range(nf, n))
+        for i in range(n):
+            order[i] = next(fl) if i in set(slots.tolist()) else next(fw)
+        PRESENTATION['trajectories_with_framework_atoms_before_or_between_the_diffusing_atoms'] += 1
+        return order
+
+    def trajectory(self, species_mode='element', rng=None, interleave=False):
+        order = self.atom_order(interleave)
+        sp = species_objects([self.species_names[i] for i in order], rng=rng, mode=species_mode)
         return make_trajectory(
-            self.matrix, sp, self.coords, time_step=self.time_step, metadata={'temperature': self.temperature}
+            self.matrix, sp, self.coords[:, order], time_step=self.time_step, metadata={'temperature': self.temperature}
         )
 
     def transitions(self, traj=None, sites=None):
-        traj = traj if traj is not None else self.trajectory()
+        traj = traj if traj is not None else self.trajectory(interleave=True)
         sites = sites if sites is not None else self.sites_structure()
         return traj.transitions_between_sites(
             sites=sites,
@@ -316,7 +335,7 @@ def realise_positions(rng, matrix, site_frac, radii, inner_fraction, states, inn
     return pos, via_image
 
 
-LABEL_VOCABS = [['A', 'B', 'C'], ['Li1', 'Li10', 'Li100'], ['48h', '48h2', '4'], ['Li', 'i', 'L'], ['B', 'AB', 'ABA'], ['a', 'A', 'a ']]
+LABEL_VOCABS = [['A', 'B', 'C'], ['Li1', 'Li10', 'Li100'], ['48h', '48h2', '4'], ['Li', 'i', 'L'], ['B', 'AB', 'ABA'], ['a', 'A', 'a '], ['8a', '16e', '48h'], ['Li2', 'Li10', 'Li1']]
 
 
 def make_site_system(
